@@ -77,86 +77,6 @@ theorem runProject_never_panics (cfg : Cfg) (fs : FS) (inputs : List Str) : (run
   · simp
   · exact runLoop_never_panics cfg _ _ _ [] FReach.init
 
-/-- where a run that ends by itself stops: a reachable coordinator state with nothing in flight -/
-theorem runLoop_end (cfg : Cfg) (inputs : List Coord.File) : ∀ (fuel : Nat) (s : PSt) (hist : List (Coord.Task × Coord.Res)),
-    FReach inputs s.st hist → ((runLoop cfg fuel s).1 = .ok ∨ (runLoop cfg fuel s).1 = .circular) →
-    ∃ (s' : PSt) (hist' : List (Coord.Task × Coord.Res)), FReach inputs s'.st hist' ∧ s'.st.pool = [] ∧
-      (runLoop cfg fuel s).2 = s'.fs ∧ ((runLoop cfg fuel s).1 = .circular ↔ remaining s' = true) := by
-  intro fuel
-  induction fuel with
-  | zero => intro s hist _ h; simp [runLoop] at h
-  | succ fuel ih =>
-    intro s hist hF h
-    unfold runLoop at h ⊢
-    cases hpool : s.st.pool with
-    | nil =>
-      refine ⟨s, hist, hF, hpool, ?_, ?_⟩
-      · simp only
-      · simp only
-        cases hr : remaining s <;> simp
-    | cons t rest =>
-      cases t with
-      | pp f first =>
-        rw [hpool] at h
-        simp only at h ⊢
-        have hmem : Coord.Task.pp f first ∈ s.st.pool := by rw [hpool]; exact List.mem_cons_self
-        have herase : ({ s.st with pool := rest } : Coord.St) = { s.st with pool := s.st.pool.erase (Coord.Task.pp f first) } := by
-          rw [hpool]; simp
-        cases hoc : (runPass cfg s.fs (s.names.getD f []) first).1 with
-        | err => rw [hoc] at h; simp at h
-        | ok =>
-          rw [hoc] at h
-          simp only at h ⊢
-          have hty : WellTyped (Coord.Task.pp f first) (Coord.Res.ok f) := by simp [WellTyped]
-          cases hh : Coord.handle { s.st with pool := rest } (.ok f) with
-          | fail => rw [hh] at h; simp at h
-          | panic => rw [hh] at h; simp at h
-          | cont st' =>
-            rw [hh] at h
-            simp only at h ⊢
-            rw [herase] at hh
-            exact ih _ _ (FReach.step s.st st' hist _ _ hF hmem hty hh) h
-        | hasDeps deps =>
-          rw [hoc] at h
-          simp only at h ⊢
-          obtain ⟨hfirst, hne⟩ := runPass_hasDeps cfg s.fs _ first deps hoc
-          subst hfirst
-          have hidx : (indexAll s.names (deps.map (fun d => (splitOn '/' d)))).2 ≠ [] :=
-            indexAll_ne_nil _ _ (by simpa using hne)
-          have hty : WellTyped (Coord.Task.pp f true) (Coord.Res.hasDeps f (indexAll s.names (deps.map (fun d => (splitOn '/' d)))).2) := by
-            simp [WellTyped, hidx]
-          cases hh : Coord.handle { s.st with pool := rest }
-              (.hasDeps f (indexAll s.names (deps.map (fun d => (splitOn '/' d)))).2) with
-          | fail => rw [hh] at h; simp at h
-          | panic => rw [hh] at h; simp at h
-          | cont st' =>
-            rw [hh] at h
-            simp only at h ⊢
-            rw [herase] at hh
-            exact ih { names := _, st := st', fs := _ } _ (FReach.step s.st st' hist _ _ hF hmem hty hh) h
-
-/-- **a circular-dependency verdict is always justified** (C05, concrete model of `Txtpp::run`): if the
-    run ends with `circular`, then the dependency lists that the first passes of this very run
-    reported - tabulated by the world `w` - contain a cycle, and some file still waiting can reach it -/
-theorem runProject_circular_has_cycle (cfg : Cfg) (fs : FS) (inputs : List Str) (h : (runProject cfg fs inputs).1 = .circular) :
-    ∃ (idx : List Coord.File) (s : Coord.St) (hist : List (Coord.Task × Coord.Res)) (w : Coord.World),
-      FReach idx s hist ∧ (∀ t r, (t, r) ∈ hist → w.result t = r) ∧ s.pool = [] ∧
-      ∃ f, (∃ d, f ∈ s.dm.inE d) ∧ Coord.ReachesCycle w.deps f := by
-  unfold runProject at h
-  split at h
-  · simp at h
-  · rename_i files dirs hres
-    simp only at h
-    obtain ⟨s', hist', hF, hq, _, hrem⟩ := runLoop_end cfg _ _ _ [] FReach.init (Or.inr h)
-    obtain ⟨w, hR, hw⟩ := Coord.freach_reach _ s'.st hist' hF
-    have hr := hrem.1 h
-    unfold remaining at hr
-    obtain ⟨d, _, hd⟩ := List.any_eq_true.1 hr
-    have hne : s'.st.dm.inE d ≠ [] := by
-      intro he; rw [he] at hd; simp at hd
-    obtain ⟨a, ha⟩ := List.exists_mem_of_ne_nil _ hne
-    exact ⟨_, s'.st, hist', w, hF, hw, hq, a, ⟨d, ha⟩, Coord.waiting_reaches_cycle w _ s'.st hR hq a ⟨d, ha⟩⟩
-
 theorem indexAll_bound (names ps : List Path) : ∀ i ∈ (indexAll names ps).2, i < (indexAll names ps).1.length := by
   intro i hi
   obtain ⟨k, hk, hget⟩ := List.getElem_of_mem hi
@@ -167,135 +87,5 @@ theorem indexAll_bound (names ps : List Path) : ∀ i ∈ (indexAll names ps).2,
 theorem indexAll_names_le (names ps : List Path) : names.length ≤ (indexAll names ps).1.length := by
   obtain ⟨_, ⟨ext, he⟩, _, _⟩ := indexAll_spec ps names
   rw [he]; simp
-
-/-- like `runLoop_end`, carrying the bound "every seen file index designates a name" -/
-theorem runLoop_end_bound (cfg : Cfg) (inputs : List Coord.File) : ∀ (fuel : Nat) (s : PSt) (hist : List (Coord.Task × Coord.Res)),
-    FReach inputs s.st hist → (∀ f ∈ s.st.seen, f < s.names.length) →
-    ((runLoop cfg fuel s).1 = .ok ∨ (runLoop cfg fuel s).1 = .circular) →
-    ∃ (s' : PSt) (hist' : List (Coord.Task × Coord.Res)), FReach inputs s'.st hist' ∧ s'.st.pool = [] ∧
-      (∀ f ∈ s'.st.seen, f < s'.names.length) ∧
-      (runLoop cfg fuel s).2 = s'.fs ∧ ((runLoop cfg fuel s).1 = .circular ↔ remaining s' = true) := by
-  intro fuel
-  induction fuel with
-  | zero => intro s hist _ _ h; simp [runLoop] at h
-  | succ fuel ih =>
-    intro s hist hF hB h
-    unfold runLoop at h ⊢
-    cases hpool : s.st.pool with
-    | nil =>
-      refine ⟨s, hist, hF, hpool, hB, ?_, ?_⟩
-      · simp only
-      · simp only
-        cases hr : remaining s <;> simp
-    | cons t rest =>
-      cases t with
-      | pp f first =>
-        rw [hpool] at h
-        simp only at h ⊢
-        have hmem : Coord.Task.pp f first ∈ s.st.pool := by rw [hpool]; exact List.mem_cons_self
-        have herase : ({ s.st with pool := rest } : Coord.St) = { s.st with pool := s.st.pool.erase (Coord.Task.pp f first) } := by
-          rw [hpool]; simp
-        cases hoc : (runPass cfg s.fs (s.names.getD f []) first).1 with
-        | err => rw [hoc] at h; simp at h
-        | ok =>
-          rw [hoc] at h
-          simp only at h ⊢
-          have hty : WellTyped (Coord.Task.pp f first) (Coord.Res.ok f) := by simp [WellTyped]
-          cases hh : Coord.handle { s.st with pool := rest } (.ok f) with
-          | fail => rw [hh] at h; simp at h
-          | panic => rw [hh] at h; simp at h
-          | cont st' =>
-            rw [hh] at h
-            simp only at h ⊢
-            have hB' : ∀ x ∈ st'.seen, x < s.names.length := by
-              intro x hx
-              rcases Coord.handle_seen _ st' _ hh x hx with h1 | ⟨a, deps, he, _⟩
-              · exact hB x h1
-              · cases he
-            rw [herase] at hh
-            exact ih { s with st := st', fs := _ } _ (FReach.step s.st st' hist _ _ hF hmem hty hh) hB' h
-        | hasDeps deps =>
-          rw [hoc] at h
-          simp only at h ⊢
-          obtain ⟨hfirst, hne⟩ := runPass_hasDeps cfg s.fs _ first deps hoc
-          subst hfirst
-          have hidx : (indexAll s.names (deps.map (fun d => (splitOn '/' d)))).2 ≠ [] :=
-            indexAll_ne_nil _ _ (by simpa using hne)
-          have hty : WellTyped (Coord.Task.pp f true) (Coord.Res.hasDeps f (indexAll s.names (deps.map (fun d => (splitOn '/' d)))).2) := by
-            simp [WellTyped, hidx]
-          cases hh : Coord.handle { s.st with pool := rest }
-              (.hasDeps f (indexAll s.names (deps.map (fun d => (splitOn '/' d)))).2) with
-          | fail => rw [hh] at h; simp at h
-          | panic => rw [hh] at h; simp at h
-          | cont st' =>
-            rw [hh] at h
-            simp only at h ⊢
-            have hB' : ∀ x ∈ st'.seen, x < (indexAll s.names (deps.map (fun d => (splitOn '/' d)))).1.length := by
-              intro x hx
-              rcases Coord.handle_seen _ st' _ hh x hx with h1 | ⟨a, ds, he, hx'⟩
-              · exact Nat.lt_of_lt_of_le (hB x h1) (indexAll_names_le _ _)
-              · simp only [Coord.Res.hasDeps.injEq] at he
-                obtain ⟨_, rfl⟩ := he
-                exact indexAll_bound _ _ x hx'
-            rw [herase] at hh
-            exact ih { names := _, st := st', fs := _ } _ (FReach.step s.st st' hist _ _ hF hmem hty hh) hB' h
-
-/-- **success means completion (C03, concrete model of `Txtpp::run`)**: if the run ends `ok`, every file the
-    coordinator ever heard of - the resolved inputs and every dependency reported by a first pass,
-    transitively - has completed a pass that ended `ok`; nothing is left waiting -/
-theorem runProject_ok_complete (cfg : Cfg) (fs : FS) (inputs : List Str) (h : (runProject cfg fs inputs).1 = .ok) :
-    ∃ (idx : List Coord.File) (s : Coord.St) (hist : List (Coord.Task × Coord.Res)),
-      FReach idx s hist ∧ s.pool = [] ∧ (∀ i ∈ idx, i ∈ s.seen) ∧
-      (∀ f ∈ s.seen, ∃ b, (Coord.Task.pp f b, Coord.Res.ok f) ∈ hist) ∧
-      (∀ f deps, (Coord.Task.pp f true, Coord.Res.hasDeps f deps) ∈ hist → ∀ d ∈ deps, d ∈ s.seen) := by
-  unfold runProject at h
-  split at h
-  · simp at h
-  · rename_i files dirs hres
-    simp only at h
-    have hB0 : ∀ f ∈ (Coord.init (indexAll [] (files ++ scanAll fs cfg.recursive (fs.dirs.length + dirs.length + 2) dirs [])).2).seen,
-        f < (indexAll [] (files ++ scanAll fs cfg.recursive (fs.dirs.length + dirs.length + 2) dirs [])).1.length := by
-      intro f hf
-      rcases Coord.execFiles_seen _ _ true f hf with h1 | ⟨_, h1⟩
-      · simp at h1
-      · exact indexAll_bound _ _ f h1
-    obtain ⟨s', hist', hF, hq, hB, _, hrem⟩ := runLoop_end_bound cfg _ _ _ [] FReach.init hB0 (Or.inl h)
-    obtain ⟨w, hw, hH⟩ := Coord.freach_world _ s'.st hist' hF
-    have hR : Coord.Reach w _ s'.st := Coord.freach_replay w _ s'.st hist' hF hw
-    have hnr : remaining s' = false := by
-      cases hr : remaining s' with
-      | false => rfl
-      | true => have := hrem.2 hr; rw [h] at this; cases this
-    have hI := Coord.reach_inv w _ s'.st hR
-    have hno : ¬ Coord.Leftover s'.st := by
-      rintro ⟨d, a, ha⟩
-      have hd : d ∈ s'.st.seen := (hI.edge d a ha).2.2.1
-      have hlt := hB d hd
-      unfold remaining at hnr
-      have := List.any_eq_false.1 hnr d (List.mem_range.2 hlt)
-      simp only [Bool.not_eq_true'] at this
-      have hne : s'.st.dm.inE d = [] := by simpa using this
-      rw [hne] at ha; simp at ha
-    refine ⟨_, s'.st, hist', hF, hq, Coord.inputs_seen w _ s'.st hR, ?_, ?_⟩
-    · intro f hf
-      rcases Coord.quiescent_cover w _ s'.st hR hq f hf with ⟨d, hd⟩ | hfin
-      · exact absurd ⟨d, f, hd⟩ hno
-      · exact hH.finHist f hfin
-    · intro f deps hm d hd
-      -- the reported dependencies are the world's dependencies, and the seen set is closed under them
-      have hwr := hw _ _ hm
-      have hdeps : w.deps f = deps := by
-        by_cases he : w.deps f = []
-        · simp only [Coord.World.result, he, if_true] at hwr
-          split at hwr <;> simp at hwr
-        · rw [Coord.result_first_deps w f he] at hwr
-          split at hwr
-          · simp at hwr
-          · simp only [Coord.Res.hasDeps.injEq] at hwr; exact hwr.2
-      have hfs : f ∈ s'.st.seen := (hH.first f _ hm).1
-      -- f is finished; finished files have finished (hence seen) dependencies
-      rcases Coord.quiescent_cover w _ s'.st hR hq f hfs with ⟨d', hd'⟩ | hfin
-      · exact absurd ⟨d', f, hd'⟩ hno
-      · exact hI.finSeen d (hI.finDeps f hfin d (by rw [hdeps]; exact hd))
 
 end Txt
